@@ -456,7 +456,11 @@ impl<'a> ParserState<'a> {
         if fileid == 0 || fileid >= self.filenames.len() {
             None
         } else {
-            Some(self.filenames[fileid].to_string())
+            // the /include directive of the main file; an element of a nested include file is written (and re-read) through it
+            self.filenames[fileid]
+                .top_include
+                .clone()
+                .or_else(|| Some(self.filenames[fileid].to_string()))
         }
     }
 
